@@ -10,7 +10,7 @@ class PROP(Prop):
     kernel_sample = 2
     rule = ("one TCP client driven through 70 000 (quick) / 140 000 (thorough) consecutive calls (> 1 resp. > 2 wraps of the 16-bit id) interleaved "
             "with exception replies, mismatching replies, read errors, write errors, oversized requests and set_slave; plus shorter random "
-            "histories.  Oracle (on the transaction ids of the frames actually written): each transmitted id = previous transmitted id + 1 + "
+            "histories; 2..5 client contexts in one process with interleaved calls (TIDS).  Oracle (on the transaction ids of the frames actually written): each transmitted id = previous transmitted id + 1 + "
             "(number of untransmitted calls in between) mod 65536, hence no repeat within a window of 65536 transmitted requests. "
             "non-trivial = call count of histories containing failures")
 
@@ -54,9 +54,29 @@ class PROP(Prop):
             n = rng.randrange(1, 400)
             line, kinds = self.history(rng, n)
             cs.append(Case(line, {"kinds": "".join(k[0] for k in kinds), "n": n}))
+        # several client contexts in one process, their calls interleaved: each connection numbers its OWN requests (the ids on one
+        # connection advance by exactly one whatever other connections send in between)
+        for _ in range(30 if tier == "quick" else 300):
+            n = rng.randrange(2, 6)
+            order = [rng.randrange(n) for _ in range(rng.randrange(2, 60))]
+            cs.append(Case("TIDS %d %s" % (n, ",".join(map(str, order))), {"tids": True, "n": len(order), "kinds": "g" * len(order)}))
+        # two contexts alternating over more than a whole id cycle
+        cs.append(Case("TIDS 2 %s" % ",".join(str(i % 2) for i in range(2 * 65540 if tier == "thorough" else 2 * 1200)), {"tids": True, "n": 2400, "kinds": "g"}))
         return cs
 
     def oracle(self, c):
+        if c.meta.get("tids"):
+            for ci, conn in enumerate((c.impl or "").split("|")):
+                if conn == "-":
+                    continue
+                ids = conn.split(".")
+                if "-" in ids:
+                    return "a call transmitted no frame"
+                ids = [int(x) for x in ids]
+                for a, b in zip(ids, ids[1:]):
+                    if b != (a + 1) & 0xFFFF:
+                        return "connection %d: transaction id %d follows %d while other connections were sending in between (must advance by exactly one)" % (ci, b, a)
+            return None
         rs = cligen.split_results(c.impl)
         kinds = c.meta["kinds"]
         if len(rs) != len(kinds):
